@@ -30,14 +30,14 @@ package proxy
 //  - X-Forwarded-For is extended by the peer address (or Forwarded, if no X-Forwarded-* came in).
 //@ spec peerIP(hostport string) string
 //@ func (*requestContext).rewriteRequest$1
-//@   props C15
-//@   loop 0 invariant hset.n - atloop(hset.n) == mapnext.n - atloop(mapnext.n)
+//@   props C15 C13
+//@   loop 0 invariant hdel.n - atloop(hdel.n) == mapnext.n - atloop(mapnext.n)
+//@   loop 1 invariant hadd.n - atloop(hadd.n) == idx + 1
 //@   ensures hdel.n >= old(hdel.n) + 3 && hdel.arg1[old(hdel.n)] == "X-Forwarded-Method" && hdel.arg1[old(hdel.n) + 1] == "X-Forwarded-Uri" && hdel.arg1[old(hdel.n) + 2] == "X-Forwarded-Path"
 //@   assert at call Del#1@1a63ac6f.1: callarg0 == proxyReq.Out.Header && proxyReq.Out.URL == *targetURL
 //@   assert at call Del#2@0a79ddb2.1: callarg0 == proxyReq.Out.Header
 //@   assert at call Del#3@6ce5a8e5.1: callarg0 == proxyReq.Out.Header
-//@   assert at call Set#1@a0038cd9.1: callarg0 == proxyReq.Out.Header
-//@   assert at call Set#1@a0038cd9.1: mapnext.n > old(mapnext.n) && iface(callarg1) == mapnext.arg0[mapnext.n - 1]
-//@   assert at call Set#1@a0038cd9.1: callarg2 == headerGet((*r).RequestContext.upstreamHeaders, callarg1, hver)
-//@   assert at call Set#2@6eebc2d8.1: callarg0 == proxyReq.Out.Header && callarg1 == "X-Forwarded-For" && hasSuffix(callarg2, peerIP((*r).req.RemoteAddr))
-//@   assert at call Set#5@eef33a36.1: callarg0 == proxyReq.Out.Header && callarg1 == "Forwarded"
+//@   assert at call Set#1: callarg0 == proxyReq.Out.Header && callarg1 == "X-Forwarded-For" && hasSuffix(callarg2, peerIP((*r).req.RemoteAddr))
+//@   assert at call Set#4: callarg0 == proxyReq.Out.Header && callarg1 == "Forwarded"
+//@   assert at call Del#4: callarg0 == proxyReq.Out.Header && mapnext.n > old(mapnext.n) && iface(callarg1) == mapnext.arg0[mapnext.n - 1]
+//@   assert at call Add#1: callarg0 == proxyReq.Out.Header && iface(callarg1) == mapnext.arg0[mapnext.n - 1]
